@@ -209,7 +209,7 @@ def gen_history(rng, cfg, nops, soft_cap=24, p_over=0.03, allow_alias=True, allo
 # running and diffing
 # ------------------------------------------------------------------------------------------------------
 class Obs:
-    __slots__ = ('idx', 'res', 'ret', 'conts', 'al', 'blocks', 'live', 'oracle', 'faults', 'raw', 'ev')
+    __slots__ = ('idx', 'res', 'ret', 'conts', 'al', 'blocks', 'live', 'oracle', 'faults', 'raw', 'ev', 'maxsz')
 
 def parse_line(line):
     o = Obs(); o.raw = line
@@ -227,11 +227,12 @@ def parse_line(line):
     last = dict(kv.split('=') for kv in parts[-1].split())
     o.al = tuple(int(x) for x in last['al'].split(','))
     o.blocks = int(last['blocks']); o.live = last['live']
-    o.oracle = 'ok'; o.faults = '-'; o.ev = None
+    o.oracle = 'ok'; o.faults = '-'; o.ev = None; o.maxsz = None
     if tail:
         t = dict(kv.split('=', 1) for kv in tail.split())
         o.oracle = t.get('oracle', 'ok'); o.faults = t.get('faults', '-')
         o.ev = tuple(int(x) for x in t['ev'].split(',')) if 'ev' in t else None
+        o.maxsz = tuple(int(x) for x in t['maxsz'].split(',')) if 'maxsz' in t else None
     return o
 
 class Run:
